@@ -34,7 +34,7 @@ theorem end_jump_corr (cx : Cx) (E : Nat) {r q : Nat} {o : Nat} (hit : ItemC cx.
 /-- what `_process_block` made of a branch's body, after the if-block patched it -/
 theorem brOK_of_block (cx : Cx) (fuel : Nat) (E : Nat) (s0 : St) (env : Src.Env) (neg : Bool) (hs : List Hdr) (body : Stmts)
     {bps : List BP} {ops : List LItem} {sa sb sc : St} {blk : Blk}
-    (hBody : PieceOK cx ops sa sb (fun k b => Src.trStmts fuel [] env (toSrcStmts body) k b) env)
+    (hBody : PieceOK cx ops sa sb (fun k b => Src.trStmts fuel cx.sm env (toSrcStmts body) k b) env)
     (hpb : processBlock bps true true ops sb = .ok (blk, sc)) (hok : HdrsOK hs) (hnm : NamesOf hs bps)
     (hpos : ∀ b ∈ bps, b.positive = !neg) (hstk : SameStk s0 sa) :
     BrOK cx fuel E s0 env ⟨neg, hs, body, blk.hdrs, patchNone E blk.items, sc⟩ ∧ SameStk sb sc ∧ NoNone blk.hdrs ∧
@@ -86,9 +86,9 @@ theorem brOK_of_block (cx : Cx) (fuel : Nat) (E : Nat) (s0 : St) (env : Src.Env)
         simp [patchNone, patchItem]
     -- entering at the start label
     have henter : ∀ r ib, Placed cx.cp cx.rs r ib (patchNone E blk.items) → ∀ k b,
-        AgreeOn cx.N cx.Z b (Src.trStmts fuel [] env (toSrcStmts body) k b).1 → ∀ m j, ExitsOK cx m j s0 env → NamedIn cx sc →
+        AgreeOn cx.N cx.Z b (Src.trStmts fuel cx.sm env (toSrcStmts body) k b).1 → ∀ m j, ExitsOK cx m j s0 env → NamedIn cx sc →
         R2 cx m j (target cx.rs (cx.cp.σ E)) k →
-        R2 cx m j ⟨r, ib⟩ (Src.trStmts fuel [] env (toSrcStmts body) k b).2 ∧ target cx.rs (cx.cp.σ sL) = ⟨r, ib⟩ := by
+        R2 cx m j ⟨r, ib⟩ (Src.trStmts fuel cx.sm env (toSrcStmts body) k b).2 ∧ target cx.rs (cx.cp.σ sL) = ⟨r, ib⟩ := by
       intro r ib hp k b hag m j hex hin hend
       rw [hP] at hp
       have hp' : Placed cx.cp cx.rs r ib ([LItem.label sL false] ++ ops ++ (tail' ++ [LItem.label (sb.lbc + 1) false])) := by
@@ -110,8 +110,8 @@ theorem brOK_of_block (cx : Cx) (fuel : Nat) (E : Nat) (s0 : St) (env : Src.Env)
       · exact hnt x hx root e
       · cases e
     have hlabs : ∀ r ib, Placed cx.cp cx.rs r ib (patchNone E blk.items) → ∀ k b,
-        AgreeOn cx.N cx.Z b (Src.trStmts fuel [] env (toSrcStmts body) k b).1 → ∀ m j, ExitsOK cx m j s0 env → NamedIn cx sc →
-        R2 cx m j (target cx.rs (cx.cp.σ E)) k → LabExport cx env m j b (Src.trStmts fuel [] env (toSrcStmts body) k b).1 := by
+        AgreeOn cx.N cx.Z b (Src.trStmts fuel cx.sm env (toSrcStmts body) k b).1 → ∀ m j, ExitsOK cx m j s0 env → NamedIn cx sc →
+        R2 cx m j (target cx.rs (cx.cp.σ E)) k → LabExport cx env m j b (Src.trStmts fuel cx.sm env (toSrcStmts body) k b).1 := by
       intro r ib hp k b hag m j hex hin hend
       rw [hP] at hp
       have hp' : Placed cx.cp cx.rs r ib ([LItem.label sL false] ++ ops ++ (tail' ++ [LItem.label (sb.lbc + 1) false])) := by
